@@ -731,6 +731,9 @@ func libStubs() map[string]StubFn {
 		c.ex.declareUF(name, []Sort{IntSort, BVSort(64)}, IntSort)
 		c.Return(Iface{T: constIntModelType, V: app(IntSort, name, x, c.args[2].(*Term))})
 	}
+	m["go/constant.MakeInt64"] = func(c *CallCtx) {
+		c.Return(Iface{T: constIntModelType, V: sbv2int(c.args[0].(*Term))})
+	}
 	m["go/constant.MakeUint64"] = func(c *CallCtx) {
 		c.Return(Iface{T: constIntModelType, V: app(IntSort, "bv2nat", c.args[0].(*Term))})
 	}
